@@ -75,6 +75,8 @@ class XorEncodedFile(io.RawIOBase):
         self.fh.seek(self.nonce_offset)
         self.initial_nonce = self.fh.read(4)
         self.nonced_filesize = self.fh.read(4)
+        # start at position 0 of the decoded data, also when the file ends before or inside the nonce and size
+        self.fh.seek(self.nonce_offset + 8)
 
     def __repr__(self) -> str:
         return f"<XorEncodedFile fh={self.fh}, nonce_offset={self.nonce_offset}>"
